@@ -421,3 +421,134 @@ def replay_agg(case):
     else:
         ok = res[0] == 'error' and 'record 2' in res[2]
     return {'fails': not ok, 'query': case['query'], 'A': case['A'], 'expected': exp, 'observed': obs}
+
+
+# ------------------------------------------------------------------ C07
+ITEM_KINDS = [
+    # (text, kind, payload)
+    ('a1', 'acol', 0), ('a2', 'acol', 1), ('a[1]', 'acol', 0), ('a[2]', 'acol', 1), ('a.n1', 'name', 'n1'), ('a["n2"]', 'name', 'n2'), ("a['n1']", 'name', 'n1'),
+    ('NR', 'name', 'NR'), ('NF', 'name', 'NF'), ("a1 + '!'", 'expr', None), ("'x,y'", 'expr', None), ('len(a1 + a2)', 'expr', None), ('max(int(a2) if a2.isdigit() else 0, 3)', 'expr', None),
+    ('a1 as first', 'alias', 'first'), ("a1 + a2 AS both", 'alias', 'both'), ('a1 or a2 as x', 'alias', 'x'), ('not a1 as y', 'alias', 'y'), ('a1 if a2 else a1 as z', 'alias', 'z'),
+    ('len(a1) as L', 'alias', 'L'), ('*', 'star', None), ('a.*', 'astar', None), ('a9', 'acol', 8),
+]
+JOIN_ITEMS = [('b1', 'bcol', 0), ('b2', 'bcol', 1), ('b3', 'bcol', 2), ('b.*', 'bstar', None), ('b.m2', 'name', 'm2'), ('b["m1"]', 'name', 'm1'), ('b5', 'bcol', 4)]
+
+
+def _ref_header(items, ih, jh):
+    """C07 naming rule; returns None when no header is produced"""
+    has_alias = any(k == 'alias' for _, k, _ in items)
+    if ih is None:
+        if not has_alias:
+            return None
+        ih2, jh2 = [], []
+    else:
+        ih2, jh2 = ih, (jh or [])
+    out = []
+    for text, kind, payload in items:
+        pos = len(out) + 1
+        if kind == 'star':
+            out += ih2 + jh2
+        elif kind == 'astar':
+            out += ih2
+        elif kind == 'bstar':
+            out += jh2
+        elif kind in ('name', 'alias'):
+            out.append(payload)
+        elif kind == 'acol':
+            out.append(ih2[payload] if payload < len(ih2) else 'col%d' % pos)
+        elif kind == 'bcol':
+            out.append(jh2[payload] if payload < len(jh2) else 'col%d' % pos)
+        else:
+            out.append('col%d' % pos)
+    return out
+
+
+@job('C07')
+def header_job(prop, tier, seed):
+    import itertools
+    rbql, eng = load_rbql()
+    fails = []
+    n = 0
+    A = [['x', '1'], ['y', '22']]
+    B = [['x', 'p', 'q', 'r'], ['y', 'p2', 'q2', 'r2']]
+    ih, jh = ['n1', 'n2'], ['m1', 'm2', 'm3', 'm4']
+    rnd = random.Random(seed)
+    lists = [[i] for i in ITEM_KINDS] + [list(p) for p in itertools.permutations(ITEM_KINDS, 2)]
+    if tier == 'quick':
+        lists = lists[:len(ITEM_KINDS)] + rnd.sample(lists[len(ITEM_KINDS):], 250)
+    for items in lists:
+        for with_header in (True, False):
+            for join in (False, True):
+                its = list(items)
+                if join:
+                    its = its + [rnd.choice(JOIN_ITEMS)]
+                if not with_header and any(k in ('name',) and p not in ('NR', 'NF') for _, k, p in its):
+                    continue
+                if not with_header and any(k == 'alias' for _, k, _ in its) and any(k in ('star', 'astar', 'bstar') for _, k, _ in its):
+                    continue
+                q = 'select ' + ', '.join(t for t, _, _ in its) + (' join b on a1 == b1' if join else '')
+                exp = _ref_header(its, ih if with_header else None, (jh if with_header else None) if join else None)
+                n += 1
+                out, warnings, hdr = [], [], []
+                try:
+                    eng.query_table(q, [list(r) for r in A], out, warnings, [list(r) for r in B] if join else None, ih if with_header else None, (jh if with_header else None) if join else None, hdr)
+                except Exception as e:
+                    fails.append({'replay': 'header', 'key': _key(q, with_header, join), 'query': q, 'with_header': with_header, 'join': join, 'expected': exp, 'observed': '%s: %s' % (type(e).__name__, e)})
+                    continue
+                got = hdr if (hdr or exp is not None) else None
+                if exp is None:
+                    ok = hdr == []
+                else:
+                    ok = hdr == exp and all(len(r) == len(exp) for r in out)
+                if not ok:
+                    fails.append({'replay': 'header', 'key': _key(q, with_header, join), 'query': q, 'with_header': with_header, 'join': join, 'expected': exp, 'observed': hdr,
+                                  'record_widths': sorted(set(len(r) for r in out))})
+                if len(fails) >= MAX_FAIL:
+                    break
+            if len(fails) >= MAX_FAIL:
+                break
+        if len(fails) >= MAX_FAIL:
+            break
+    # header width == record width through writers that enforce it (CSV), incl. DISTINCT COUNT, EXCEPT, aggregates, UPDATE, TOP
+    import io
+    from rbql import rbql_csv
+    for q, want_hdr in [('select distinct count a1', None), ('select * except a2', ['n1']), ('select a1, COUNT(*) group by a1', ['n1', 'col2']), ('update a2 = "k"', ['n1', 'n2']),
+                        ('select top 1 *', ['n1', 'n2']), ('select distinct a2, a1', ['n2', 'n1']), ('select a1 as k, * except a1', None)]:
+        n += 1
+        src = 'n1,n2\nx,1\ny,2\nx,1\n'
+        it = rbql_csv.CSVRecordIterator(io.StringIO(src), None, ',', 'quoted', has_header=True)
+        outs = io.StringIO()
+        w = rbql_csv.CSVWriter(outs, False, None, ',', 'quoted')
+        try:
+            eng.query(q, it, w, [])
+            lines = outs.getvalue().strip('\n').split('\n')
+            widths = set(len(l.split(',')) for l in lines)
+            ok = len(widths) == 1 and (want_hdr is None or lines[0].split(',') == want_hdr)
+            obs = lines[:3]
+        except eng.RbqlParsingError as e:
+            ok = q.startswith('select a1 as k, * except')      # EXCEPT with other items is rejected at parse time: fine
+            obs = 'RbqlParsingError: %s' % e
+        except Exception as e:
+            ok = False
+            obs = '%s: %s' % (type(e).__name__, e)
+        if not ok:
+            fails.append({'replay': 'none', 'key': 'csvwidth:' + q.replace(' ', '_'), 'query': q, 'expected': 'header width == record width%s' % ('' if want_hdr is None else ', header %r' % want_hdr), 'observed': obs})
+    return {'job': 'output_header', 'evaluations': n, 'distinct_nontrivial': len(lists), 'exhaustive': tier != 'quick',
+            'rule': 'select lists of 1-2 items (+1 join item) over 22 item kinds (aN, a[N], a.name, a["name"], bare names, expressions with commas/calls/literals, aliases on or/not/if-else expressions in both cases, star forms, out-of-range fields) x header on/off x join on/off: output_column_names vs the naming rule and record width; header width == record width through CSVWriter for DISTINCT COUNT, EXCEPT, aggregates, UPDATE, TOP',
+            'failures': fails, 'samples': ['select a1 or a2 as x, a[2]']}
+
+
+def replay_header(case):
+    rbql, eng = load_rbql()
+    A = [['x', '1'], ['y', '22']]
+    B = [['x', 'p', 'q', 'r'], ['y', 'p2', 'q2', 'r2']]
+    ih, jh = ['n1', 'n2'], ['m1', 'm2', 'm3', 'm4']
+    out, hdr = [], []
+    try:
+        eng.query_table(case['query'], A, out, [], B if case['join'] else None, ih if case['with_header'] else None, (jh if case['with_header'] else None) if case['join'] else None, hdr)
+        obs = hdr
+    except Exception as e:
+        obs = '%s: %s' % (type(e).__name__, e)
+    exp = case['expected']
+    ok = (obs == []) if exp is None else (obs == exp)
+    return {'fails': not ok, 'query': case['query'], 'expected': exp, 'observed': obs}
